@@ -18,7 +18,10 @@ Plan == << [proto |-> "tcp", ip |-> "127.0.0.1", port |-> 8080, first |-> <<"GET
            [proto |-> "tcp", ip |-> "127.0.0.1", port |-> 21, first |-> <<"USER">>, src |-> "c3"],
            [proto |-> "tcp", ip |-> "127.0.0.1", port |-> 6379, first |-> <<"*1">>, src |-> "c4"],
            [proto |-> "tcp", ip |-> "127.0.0.1", port |-> 7777, first |-> <<"PANIC">>, src |-> "c5"],
-           [proto |-> "tcp", ip |-> "127.0.0.1", port |-> 9999, first |-> <<"GET">>, src |-> "c6"] >>
+           [proto |-> "tcp", ip |-> "127.0.0.1", port |-> 9999, first |-> <<"GET">>, src |-> "c6"],
+           [proto |-> "udp", ip |-> "127.0.0.1", port |-> 7, first |-> <<"hello">>, src |-> "c7"],
+           [proto |-> "tcp", ip |-> "127.0.0.1", port |-> 7, first |-> <<"hello">>, src |-> "c8"],
+           [proto |-> "udp", ip |-> "127.0.0.1", port |-> 21, first |-> <<"USER">>, src |-> "c9"] >>
 
 H == INSTANCE Honeytrap WITH Channels <- Chans, Entries <- SvcTable, FilterCfg <- cfg, CatOf <- Cats, Token <- "tok"
 
